@@ -778,7 +778,9 @@ radius_pkt_attr_password_encode(uint8_t *authenticator,
 	    (NULL == buf && 0 != buf_size))
 		return (EINVAL);
 	/* Copy and pad with zero. */
-	memcpy(buf, password, password_len);
+	if (0 != password_len) { /* (NULL, 0) is allowed. */
+		memcpy(buf, password, password_len);
+	}
 	memset((buf + password_len), 0x00, (password_len_aligned - password_len));
 	/* Init md5 context. */
 	md5_init(&ctx);
@@ -1030,7 +1032,9 @@ radius_pkt_attr_add_raw(rad_pkt_hdr_p pkt, size_t pkt_buf_size, size_t *pkt_size
 	    type, len, &attr, offset_ret);
 	if (0 != error)
 		return (error);
-	memcpy(RADIUS_PKT_ATTR_DATA(attr), data, len);
+	if (0 != len) { /* (NULL, 0) is allowed. */
+		memcpy(RADIUS_PKT_ATTR_DATA(attr), data, len);
+	}
 	if (NULL != attr_ret) {
 		(*attr_ret) = attr;
 	}
@@ -1078,7 +1082,9 @@ radius_pkt_attr_add(rad_pkt_hdr_p pkt, size_t pkt_buf_size, size_t *pkt_size_ret
 		if (0 != error)
 			return (error);
 		/* Encode password to attribute data - late, on pkt sign. */
-		memcpy(RADIUS_PKT_ATTR_DATA(attr), data, len);
+		if (0 != len) { /* (NULL, 0) is allowed. */
+			memcpy(RADIUS_PKT_ATTR_DATA(attr), data, len);
+		}
 		memset((RADIUS_PKT_ATTR_DATA(attr) + len), 0x00, (tm - len));
 		return (0);
 	case RADIUS_ATTR_TYPE_MSG_AUTHENTIC:
@@ -1222,19 +1228,24 @@ radius_pkt_attr_get_data_to_buf(rad_pkt_hdr_p pkt, size_t offset, size_t count,
     uint8_t type, uint8_t *buf, size_t buf_size, size_t *buf_size_ret) {
 	int error = ENOATTR;
 	uint8_t *ptm;
-	size_t tm, data_len = 0;
+	size_t tm, attr_len, data_len = 0;
 
 	if (0 == count)
 		count = ~count; /* Get all attrs. */
 	while (0 != count && 0 == radius_pkt_attr_find(pkt, offset, type, &offset)) {
+		error = radius_pkt_attr_get_data_ptr_raw(pkt, offset, NULL, NULL, &attr_len);
+		if (0 != error)
+			break;
 		error = radius_pkt_attr_get_data_ptr(pkt, offset, NULL, &ptm, &tm);
 		if (0 != error)
 			break;
-		if (buf_size < (data_len + tm))
-			break; /* Not enought free space in buf. */
+		if (buf_size < (data_len + tm)) { /* Not enought free space in buf: not all returned. */
+			error = EOVERFLOW;
+			break;
+		}
 		memcpy((buf + data_len), ptm, tm);
 		data_len += tm;
-		offset += (tm + 2); /* Move next. */
+		offset += (attr_len + 2); /* Move next: by the attribute size, the data may be shorter. */
 		count --;
 	}
 	if (NULL != buf_size_ret) {
